@@ -69,6 +69,8 @@ def run(ctx):
         order = [(i, j) for i in range(len(instances)) for j in range(len(tlist))]
         rng.shuffle(order)
         objs = [trees.use_placeholder_singleton(common.load_tree(d), rng) for d in tlist]
+        if rng.random() < 0.2:
+            ctx.count("nodes of user-defined subclasses (mixin first)", sum(trees.user_subclasses(o, rng) for o in objs))
         snaps = [trees.snapshot(o) for o in objs]
         for i, j in order:
             hs, inst, log = instances[i]
